@@ -3,6 +3,9 @@ package scen
 import (
 	"fmt"
 	"reflect"
+	"strings"
+
+	"github.com/kstenerud/go-concise-encoding/ce/events"
 
 	"verifsim/eq"
 	"verifsim/gen"
@@ -23,6 +26,8 @@ type mnode struct {
 	kind     byte // 'l' list, 'm' map, 'o' opaque (scalar, array, node, edge, record, reference, marked object)
 	end      int  // encoder offset after the node's last event
 	children []*mnode // list: elements; map: key0,value0,key1,value1,...
+	isKey    bool     // a string leaf: its text (used to find the struct field of a typed template)
+	key      string
 }
 
 type mparser struct {
@@ -126,14 +131,28 @@ func (p *mparser) value() *mnode {
 			}
 		}
 	case rec.KArrayBegin, rec.KMediaBegin, rec.KCustomBegin:
+		start := p.i
 		p.i++
 		p.skipArrayTail()
-		return &mnode{kind: 'o', end: p.off[p.i-1]}
+		n := &mnode{kind: 'o', end: p.off[p.i-1]}
+		if e.K == rec.KArrayBegin && e.AT == events.ArrayTypeString {
+			n.isKey = true
+			for _, d := range p.evs[start:p.i] {
+				if d.K == rec.KArrayData {
+					n.key += string(d.S)
+				}
+			}
+		}
+		return n
 	case rec.KEndContainer, rec.KEndDocument, rec.KRecordType:
 		return nil
 	}
 	p.i++
-	return &mnode{kind: 'o', end: p.off[p.i-1]}
+	n := &mnode{kind: 'o', end: p.off[p.i-1]}
+	if (e.K == rec.KArray || e.K == rec.KStringlikeArray) && e.AT == events.ArrayTypeString {
+		n.isKey, n.key = true, string(e.S)
+	}
+	return n
 }
 
 // buildModel returns the model of the document's top-level value, or nil if
@@ -177,7 +196,7 @@ func checkComplete(n *mnode, partial, full reflect.Value, k int, cte bool, path 
 	partial, full = deref(partial), deref(full)
 	switch n.kind {
 	case 'l':
-		if !full.IsValid() || full.Kind() != reflect.Slice {
+		if !full.IsValid() || (full.Kind() != reflect.Slice && full.Kind() != reflect.Array) {
 			return true, "" // representation not covered by the model
 		}
 		done := 0
@@ -187,7 +206,7 @@ func checkComplete(n *mnode, partial, full reflect.Value, k int, cte bool, path 
 		if done == 0 && (done >= len(n.children) || !hasCompleteDescendant(n.children[done], k, cte)) {
 			return true, ""
 		}
-		if !partial.IsValid() || partial.Kind() != reflect.Slice {
+		if !partial.IsValid() || (partial.Kind() != reflect.Slice && partial.Kind() != reflect.Array) {
 			return false, fmt.Sprintf("%s: %d element(s) were completely delivered but the partial value holds no list here", path, done)
 		}
 		if partial.Len() < done {
@@ -205,6 +224,9 @@ func checkComplete(n *mnode, partial, full reflect.Value, k int, cte bool, path 
 			return checkComplete(n.children[done], partial.Index(done), full.Index(done), k, cte, fmt.Sprintf("%s[%d]", path, done))
 		}
 	case 'm':
+		if full.IsValid() && full.Kind() == reflect.Struct {
+			return checkCompleteStruct(n, partial, full, k, cte, path)
+		}
 		if !full.IsValid() || full.Kind() != reflect.Map {
 			return true, ""
 		}
@@ -242,6 +264,61 @@ func checkComplete(n *mnode, partial, full reflect.Value, k int, cte bool, path 
 				}
 			}
 		}
+	}
+	return true, ""
+}
+
+// checkCompleteStruct: the document's map was unmarshaled into a Go struct
+// (typed template). Every entry delivered completely before the cut must be
+// in its field, unchanged; the entry that was open at the cut is followed
+// into its field. Keys are matched to fields the way the library documents
+// (case-insensitively, ignoring underscores); an entry whose key matches no
+// field gives no verdict.
+func checkCompleteStruct(n *mnode, partial, full reflect.Value, k int, cte bool, path string) (bool, string) {
+	field := func(v reflect.Value, key string) reflect.Value {
+		if !v.IsValid() || v.Kind() != reflect.Struct {
+			return reflect.Value{}
+		}
+		want := strings.ToLower(strings.ReplaceAll(key, "_", ""))
+		for i := 0; i < v.NumField(); i++ {
+			if strings.ToLower(strings.ReplaceAll(v.Type().Field(i).Name, "_", "")) == want {
+				return v.Field(i)
+			}
+		}
+		return reflect.Value{}
+	}
+	for i := 0; i+1 < len(n.children); i += 2 {
+		key, val := n.children[i], n.children[i+1]
+		if !key.complete(k, cte) || !key.isKey {
+			return true, ""
+		}
+		ff := field(full, key.key)
+		if !ff.IsValid() {
+			continue
+		}
+		p := path + "." + key.key
+		if val.complete(k, cte) {
+			pf := field(partial, key.key)
+			if !pf.IsValid() {
+				return false, fmt.Sprintf("%s: a completely delivered field exists in the full value but the partial value holds no struct here", p)
+			}
+			if !pf.CanInterface() || !ff.CanInterface() {
+				continue
+			}
+			if ok, why := eq.Equal(pf.Interface(), ff.Interface()); !ok {
+				return false, fmt.Sprintf("%s: completely delivered field differs from the full value (%s)", p, why)
+			}
+			continue
+		}
+		// first incomplete entry: follow it if it has completely delivered contents
+		if hasCompleteDescendant(val, k, cte) {
+			pf := field(partial, key.key)
+			if !pf.IsValid() {
+				return false, fmt.Sprintf("%s: an open container with completely delivered contents is missing", p)
+			}
+			return checkComplete(val, pf, ff, k, cte, p)
+		}
+		return true, ""
 	}
 	return true, ""
 }
